@@ -497,7 +497,7 @@ func genContents(t *rapid.T, c *BuildCase, o contentOpts) {
 
 // ---------- identity ----------
 
-var pkgName = rapid.StringMatching(`[a-z][a-z0-9]{1,6}([.+-][a-z0-9]{1,4}){0,2}`)
+var pkgName = rapid.StringMatching(`[a-zA-Z][a-zA-Z0-9]{1,6}([.+_-][a-zA-Z0-9]{1,4}){0,2}`) // rpm, apk and archlinux names may hold upper-case letters and underscores; nfpm validates none for deb
 
 func genBasicMeta(t *rapid.T) Meta {
 	return Meta{
